@@ -68,6 +68,13 @@ def run_impl(case, d):
             out_dir = os.path.join(d, f"cp_save_{k}")
             before = observe(cur)         # the graph as it is saved in this cycle (a recomputed path may be another of several maximum-weight paths)
             z = cur.save(out_dir)
+            if (case.get("case_no", 0) + k) % 2 == 1:
+                # the archive is moved / renamed between saving and restoring (it is a file like any other): what it restores to is decided by
+                # what it holds, not by what it is called
+                moved = os.path.join(d, f"moved_{k}", "graph of rank %d.zip" % res["rank"])
+                os.makedirs(os.path.dirname(moved), exist_ok=True)
+                shutil.move(z, moved)
+                z = moved
             cur = restore_cpgraph(z, ta.t, res["rank"])
             shutil.rmtree("/tmp" + out_dir, ignore_errors=True)
             after = observe(cur)
